@@ -9,7 +9,7 @@ from .exceptions import CaptionReadNoCaptions, InvalidInputError
 class SRTReader(BaseReader):
     def detect(self, content):
         lines = content.splitlines()
-        if lines[0].isdigit() and '-->' in lines[1]:
+        if len(lines) > 1 and lines[0].isdigit() and '-->' in lines[1]:
             return True
         else:
             return False
